@@ -15,6 +15,8 @@
 package dmap
 
 import (
+	"encoding/binary"
+	"fmt"
 	"time"
 
 	"github.com/olric-data/olric/internal/cluster/partitions"
@@ -83,6 +85,11 @@ func (s *Service) putEntryCommandHandler(conn redcon.Conn, cmd redcon.Command) {
 		return
 	}
 
+	if err = validateEncodedEntry(putEntryCmd.Value); err != nil {
+		protocol.WriteError(conn, err)
+		return
+	}
+
 	e := newEnv(s.ctx)
 	e.hkey = partitions.HKey(putEntryCmd.DMap, putEntryCmd.Key)
 	e.dmap = putEntryCmd.DMap
@@ -94,4 +101,25 @@ func (s *Service) putEntryCommandHandler(conn redcon.Conn, cmd redcon.Command) {
 		return
 	}
 	conn.WriteString(protocol.StatusOK)
+}
+
+// validateEncodedEntry checks the framing of an encoded entry before it is stored as it is:
+//
+// KEY-LENGTH(uint8) | KEY(bytes) | TTL(uint64) | TIMESTAMP(uint64) | LASTACCESS(uint64) | VALUE-LENGTH(uint32) | VALUE(bytes)
+//
+// A truncated or inconsistent entry would make every later read of the table panic.
+func validateEncodedEntry(buf []byte) error {
+	const fixed = 1 + 8 + 8 + 8 + 4
+	if len(buf) < fixed {
+		return fmt.Errorf("%w: malformed entry", protocol.ErrInvalidArgument)
+	}
+	klen := int(buf[0])
+	if len(buf) < fixed+klen {
+		return fmt.Errorf("%w: malformed entry", protocol.ErrInvalidArgument)
+	}
+	vlen := binary.BigEndian.Uint32(buf[1+klen+24 : 1+klen+28])
+	if uint64(len(buf)) != uint64(fixed+klen)+uint64(vlen) {
+		return fmt.Errorf("%w: malformed entry", protocol.ErrInvalidArgument)
+	}
+	return nil
 }
